@@ -189,7 +189,7 @@ def real_one(ctx: Ctx, b, model: str, method: str, tight: bool, tick: float, rng
     from resonaate.physics.time.stardate import ScenarioTime
     from functools import partial
     kk = b["K"]
-    patience = 300.0 if ctx.quick else 1800.0      # generous: the machine may be loaded; quick durations take seconds
+    patience = 150.0 if ctx.quick else 1800.0      # generous: the machine may be loaded; quick durations take seconds
     orbits = [random_orbit(rng) for _ in range(kk)]
     x0 = np.stack([o[1] for o in orbits], axis=1)
     jd0 = 2458484.5 + rng.randrange(0, 700) + rng.randrange(0, 86400) / 86400.0
